@@ -43,7 +43,7 @@ pub fn run(rep: &Report) -> i32 {
         rep.machinery("Elements::ALL differs from the frozen snapshot (simplicity-lang version changed?)");
     }
     let modelled: Vec<String> = names.iter().filter(|n| jets::has_model(n)).cloned().collect();
-    rep.set("bounds", json!({"jets": names.len(), "jets_with_closed_form_model": modelled.len(), "argument_tuples_per_jet": if quick {"<= 64 (complete product of boundary sets)"} else {"<= 2048; all 2^16 operand pairs for 8-bit binary jets"}}));
+    rep.set("bounds", json!({"jets": names.len(), "jets_with_closed_form_model": modelled.len(), "argument_tuples_per_jet": if quick {"<= 512 (complete product of boundary sets)"} else {"<= 4096; all 2^16 operand pairs for 8-bit binary jets"}}));
     // (a) callable with the documented signature; reserved ones rejected; arity / order edits rejected
     par_for(&names, rep, 4, |i, name| {
         rep.state();
@@ -116,7 +116,7 @@ pub fn run(rep: &Report) -> i32 {
         };
         // argument alphabets: all 2^16 pairs for 8-bit binary jets in thorough; otherwise boundary products
         let total_bits: u32 = ptys.iter().map(|t| gen::count_vals(t)).fold(0u32, |a, c| a.saturating_add(if c == u128::MAX { 1000 } else { 128 - c.leading_zeros() }));
-        let budget: usize = if quick { 64 } else if total_bits <= 18 { 1 << 17 } else { 2048 };
+        let budget: usize = if quick { 512 } else if total_bits <= 18 { 1 << 17 } else { 4096 };
         let (lists, _) = value_lists(&free, budget);
         let sizes: Vec<usize> = lists.iter().map(|l| l.len()).collect();
         let mut n = 0u64;
